@@ -540,7 +540,7 @@ pub fn property() -> Property {
                 driver: Driver::Generated { gen: gen_san_case, genome_len: 320, quick: 150_000, thorough: 3_000_000 },
                 check: san_check,
                 configs: Configs::Both,
-                required: &["has_illegal_pseudolegal", "noncanonical_san_accepted", "tokenized", "ambiguous_text_refused"],
+                required: &["has_illegal_pseudolegal", "tokenized", "ambiguous_text_refused"], // acceptance of non-canonical SAN is not promised
                 regressions: &[
                     r#"{"fen":"8/8/8/K2Pp2r/8/8/8/7k w - e6 0 1","src":"regression_D1","texts":["de","dxe6","d5e6","de6"]}"#,
                     r#"{"fen":"rnbqkbnr/pppppppp/8/8/8/8/PPPPPPPP/RNBQKBNR w KQkq - 0 1","src":"regression_D2","texts":["N","R+","Nx","Q#","€","N€"]}"#,
